@@ -155,7 +155,7 @@ func c07Flags(r *prng.R, i uint64) uint32 {
 func init() {
 	p := &mon.Property{
 		ID: "C07",
-		Rule: "Every Engine.Execute call runs under the recover monitor in a child process (a child death or a case that does not return is attributed through the progress marker and confirmed alone). Sources: random byte pairs (lengths 0..80 and the 10000/10001-byte boundary), every truncation and 8 mutations of each node vector, structured random programs, the enumerated opcode x edge-operand programs; flag words sampled from all 2^16 (always including each single bit, 0 and all ones); short programs over a small alphabet around signature opcodes / code separators / OP_RETURN / conditionals; structurally malformed DER signatures; transactions of 1-3 inputs and 0-2 outputs with the checked input at any position; twelve transaction-context modes (scripts only, tx, tx without previous output, nil tx with negative index, index out of range, -1, nil unlocking script, tx without inputs, previous output without script, nil scripts); no debugger / recording debugger / debug.NewDebugger with attached functions. " +
+		Rule: "Every Engine.Execute call runs under the recover monitor in a child process (a child death or a case that does not return is attributed through the progress marker and confirmed alone). Sources: all 256 hash-type bytes on a well-formed signature x 27 (inputs 1..3, outputs 0..2, checked index) transaction shapes x 6 flag sets x CHECKSIG / CHECKMULTISIG; random byte pairs (lengths 0..80 and the 10000/10001-byte boundary), every truncation and 8 mutations of each node vector, structured random programs, the enumerated opcode x edge-operand programs; flag words sampled from all 2^16 (always including each single bit, 0 and all ones); short programs over a small alphabet around signature opcodes / code separators / OP_RETURN / conditionals; structurally malformed DER signatures; transactions of 1-3 inputs and 0-2 outputs with the checked input at any position; twelve transaction-context modes (scripts only, tx, tx without previous output, nil tx with negative index, index out of range, -1, nil unlocking script, tx without inputs, previous output without script, nil scripts); no debugger / recording debugger / debug.NewDebugger with attached functions. " +
 			"distinct_nontrivial = distinct (unlock, lock, flags, mode, debugger) whose scripts are longer than 2 bytes together or that ran at least one instruction or succeeded.",
 		Assum: []string{"termination is restated as bounded progress: a case counts as non-returning only when it exceeds 600 s when re-run alone",
 			"children run with a 24 GiB address-space limit; a Go fatal error (out of memory, stack overflow) kills only the child and is reported as a violation after confirmation"},
@@ -346,6 +346,37 @@ func init() {
 					fl = c07Flags(r, i)
 				}
 				judge(c, &c07Input{Unlock: u, Lock: l, Flags: fl, Mode: "tx", Dbg: dbgOf(r, 10), Ctx: randCtx(r), Src: "sigop-combos"})
+			}
+		}
+		c.Phase("hash-type-sweep") // all 256 hash type bytes on a well-formed signature x every (inputs, outputs, checked index) shape x flag sets x CHECKSIG / 1-of-1 CHECKMULTISIG
+		{
+			pk := append([]byte{0x02}, bytesOf(0x11, 32)...)
+			der := []byte{0x30, 0x06, 0x02, 0x01, 0x01, 0x02, 0x01, 0x01}
+			flagSets := []uint32{0, uint32(scriptflag.UTXOAfterGenesis), uint32(scriptflag.VerifyDERSignatures), uint32(scriptflag.VerifyStrictEncoding),
+				uint32(scriptflag.UTXOAfterGenesis | scriptflag.EnableSighashForkID), uint32(scriptflag.VerifyNullFail)}
+			n = 0
+			for ht := 0; ht < 256; ht++ {
+				for shape := uint64(0); shape < 27; shape++ { // Sats%3 outputs, 1+Sats/3%3 inputs, index Sats/9 % inputs
+					for fi, fl := range flagSets {
+						for form := 0; form < 2; form++ {
+							n++
+							if !c.Case(n) {
+								continue
+							}
+							sig := gen.Push(append(append([]byte{}, der...), byte(ht)))
+							var u, l []byte
+							if form == 0 {
+								u = sig
+								l = append(gen.Push(pk), 0xac, 0x91)
+							} else {
+								u = append([]byte{0x00}, sig...)
+								l = append(append([]byte{0x51}, gen.Push(pk)...), 0x51, 0xae, 0x91)
+							}
+							judge(c, &c07Input{Unlock: u, Lock: l, Flags: fl, Mode: "tx", Dbg: []string{"none", "recording"}[(ht+fi)%2],
+								Ctx: progCtx{HasTx: true, Version: 1, Sequence: 0xffffffff, Sats: shape}, Src: "hash-type-sweep"})
+						}
+					}
+				}
 			}
 		}
 		c.Phase("der-variants") // structurally malformed signatures: every component missing, shortened or mis-sized, with the outer length kept consistent so that the deeper checks are reached
